@@ -88,6 +88,8 @@ structure Frame where
   line : Nat := 0
   this : Option Addr := none
   ret : Option Addr := none
+  /-- CallFrame.lineSet: false until the first statement executed in this frame has set its line -/
+  started : Bool := false
 
 structure Module where
   name : String
@@ -1239,8 +1241,12 @@ def evalStmtBlock : Nat → Option (List Stmt) → M ν (Option Addr)
   | n+1, some stmts => do
     stmts.forM fun st =>
       match st with
-      | .classDecl .. => evalClassDecl n st
-      | .funcDecl _ _ declType _ =>
+      | .classDecl .. => do
+        -- `vm.SetCurrentLine(v.GetCurrentLine())`: an error in a declaration is reported at the declaration's line
+        setTopFrame fun fr => { fr with line := st.line, started := true }
+        evalClassDecl n st
+      | .funcDecl _ _ declType _ => do
+        setTopFrame fun fr => { fr with line := st.line, started := true }
         if declType == 3 then evalCtorDecl n st else evalFuncDecl n st
       | _ => pure ()
     evalPureStmtBlock n (some stmts)
@@ -1256,7 +1262,7 @@ def evalPureStmtBlock : Nat → Option (List Stmt) → M ν (Option Addr)
 def evalStmt : Nat → Stmt → M ν Addr
   | 0, _ => outOfFuel
   | n+1, st => do
-    setTopFrame fun fr => { fr with line := st.line }
+    setTopFrame fun fr => { fr with line := st.line, started := true }
     match st with
     | .varDecl _ pairs => do
       pairs.forM fun p => do
@@ -1270,9 +1276,11 @@ def evalStmt : Nat → Stmt → M ν Addr
             pure cur') obj
         else pure ()
       newNull
-    | .while _ cond body => do
+    | .while l cond body => do
       -- one pass of `for { … }`; answers whether to go on
       whileM n (do
+        -- `vm.SetCurrentLine(node.GetCurrentLine())` at the top of every pass
+        setTopFrame fun fr => { fr with line := l, started := true }
         let c ← evalExpr n cond
         match ← getCell c with
         | .bool true =>
@@ -1401,7 +1409,11 @@ def evalClassDecl : Nat → Stmt → M ν Unit
       let cname ← matchIDNameOpt name
       let propVals ← props.mapM fun p => do
         match p.1 with
-        | some pid => do let v ← evalExpr n p.2; pure (pid.lit, v)
+        | some pid => do
+          let v ← evalExpr n p.2
+          -- `ref.DefineProperty(propID, value.DuplicateValue(element))`: the type keeps its own copy of the default
+          let v' ← dup n v
+          pure (pid.lit, v')
         | none => goPanic
       -- DefineProperty on a Go map: a later duplicate overwrites
       let propMap := propVals.foldl (fun acc kv => assocSet kv.1 kv.2 acc) []
@@ -1441,13 +1453,38 @@ def evalCtorDecl : Nat → Stmt → M ν Unit
       let cname ← matchIDNameOpt name
       let (cv, mid) ← findElementWithModule cname
       match ← getCell cv with
-      | .cls nm _ props methods =>
-        -- only a type of a program module takes a constructor (the predefined 异常 lives in the native module)
-        if mid < 0 then rtErr 87 else setCell cv (.cls nm (.user mid exec) props methods)
+      | .cls nm ctor props methods =>
+        -- only a type of a program module takes a constructor (the predefined 异常 lives in the native module) …
+        if mid < 0 then rtErr 87 else
+        -- … and only a type a running program declared itself (`IsDeclaredByProgram`), whatever name the class object
+        -- is reached by: the predefined 异常 handed to a method as an argument is a local name of a program module
+        match ctor with
+        | .exception => rtErr 87
+        | _ => setCell cv (.cls nm (.user mid exec) props methods)
       | _ => rtErr 87
     | _ => goPanic
 
 end
+
+/-! ## the call chain as `RuntimeErrorWrapper.Error()` (exec/error_printer.go) lists it -/
+
+/-- `CallFrame.GetModule()`: the module object of a frame (the native module, id −1, has none in `modules`) -/
+def moduleOf (vm : VM ν) (id : Int) : Option Module := if id < 0 then none else vm.modules[id.toNat]?
+
+/-- `trModule.GetID() == NATIVE_CODE_MODULE_ID || trModule.GetProgram() == nil`, asked of the frame's OWN module:
+a frame of built-in code or of a library has no lines to point at -/
+def Frame.isNative (vm : VM ν) (fr : Frame) : Bool :=
+  fr.moduleId == -1 || match moduleOf vm fr.moduleId with
+    | some m => !m.hasProgram
+    | none => true
+
+/-- the frames the printer shows, bottom → top: the head frame (`callStack[0]`) always; a body frame unless it belongs
+to a module with source text and no statement has begun in it (`!isNativeModule && !tr.HasStarted()` ⇒ `continue`:
+a call that failed on its argument count, or a call of something that is not a method) -/
+def listedFrames (vm : VM ν) : List Frame :=
+  match vm.stack.reverse with
+  | [] => []
+  | head :: body => head :: body.filter fun fr => fr.isNative vm || fr.started
 
 /-! ## programs (interpreter.go Execute, eval.go EvalMainModule / evalProgram) -/
 
